@@ -261,3 +261,149 @@ def run(run, P):
         ctx = solve(f, Env(), on_event, None, None, None)
         run.stats['lenread_solver_steps'] += ctx.steps
         run.require(nreads[0] > 0 or run.fixture_mode, 'R-LEN-READ: no constant-index read found in %s()' % name)
+
+
+# ---------------------------------------------------------------------------------------------------------------
+def run_outcap(run, P, units=('coap_uri.c',)):
+    """R-LEN-READ (output side): a destination pointer that travels with its remaining capacity (<name> / <name>len parameters or
+    locals: buf / buflen) is handed to a callee that writes through it WITHOUT being told the capacity (the callee has no size
+    parameter for it: decode_segment) only when the capacity was compared with something since the last time the pointer or the
+    capacity was changed -- a check made before `buf += written; buflen -= written` says nothing about what is left after it."""
+    from core.prog import strip, walk, ap, short
+    from core.psts import Env, solve, relevance, apply_generic
+    run.rule('R-LEN-READ')
+    # callees that store through a pointer parameter and have no integer parameter after it that could be its capacity
+    writers = {}
+    for g in P.lib_funcs():
+        if g['unit'] not in units:
+            continue
+        for i, p in enumerate(g['params']):
+            if not p.get('p') or p.get('pc'):
+                continue
+            pv = 'v%d' % p['id']
+            stores = False
+            for b, ev in P.events(g):
+                t = ev['e']
+                if t.get('k') == 'asg':
+                    l = strip(t['l'])
+                    if isinstance(l, dict) and ((l.get('k') == 'un' and l.get('op') == '*' and ap(l.get('e')) == pv) or (l.get('k') in ('idx', 'sub') and ap(l.get('b')) == pv)):
+                        stores = True
+            if not stores:
+                continue
+            # capacity parameter = an integer parameter whose name relates to this pointer's name (buflen, <p>_len, len, size) placed after it
+            pn = p.get('n') or ''
+            capnames = (pn + 'len', pn + '_len', pn + '_length', pn + 'size', pn + '_size', 'maxlen')
+            if any((q.get('n') in capnames) for q in g['params']):
+                continue
+            writers[(g['name'], i)] = pn
+    n = 0
+    for f in sorted(P.lib_funcs(), key=lambda f: f['name']):
+        if f['unit'] not in units:
+            continue
+        name = f['name']
+        vars_ = {}
+        for p in f['params']:
+            vars_[p.get('n')] = 'v%d' % p['id']
+        for b, ev in P.events(f):
+            t = ev['e']
+            if t.get('k') == 'decl':
+                for d in t['d']:
+                    if d.get('n'):
+                        vars_[d['n']] = 'v%d' % d['id']
+        sites = []
+        for b, ev in P.events(f):
+            t = ev['e']
+            if t.get('k') == 'call' and t.get('fn'):
+                for i, a in enumerate(t.get('a', [])):
+                    if (t['fn'], i) in writers:
+                        a0 = strip(a)
+                        if isinstance(a0, dict) and a0.get('k') == 'var' and a0.get('n'):
+                            cap = None
+                            for suf in ('len', '_len', '_length'):
+                                if a0['n'] + suf in vars_:
+                                    cap = vars_[a0['n'] + suf]
+                            if cap:
+                                sites.append((ev, ap(a0), cap))
+        if not sites:
+            continue
+        watched = set()
+        for _e, d, c in sites:
+            watched |= {d, c}
+
+        def is_rule_event(ev):
+            t = ev['e']
+            if any(ev is s[0] for s in sites):
+                return True
+            if t.get('k') == 'asg' and ap(t['l']) in watched:
+                return True
+            if t.get('k') == 'un' and t.get('op') in ('++', '--') and ap(t.get('e')) in watched:
+                return True
+            return False
+        keys, R = relevance(f, is_rule_event, watched)
+        for b in f['blocks']:
+            c = (b.get('term') or {}).get('cond')
+            if c is not None and any(ap(x) in watched for x in walk(c) if isinstance(x, dict)):
+                keys = set(keys) | {b['id']}
+
+        def on_event(ev, env, ctx):
+            t = ev['e']
+            tgt = None
+            if t.get('k') == 'asg':
+                tgt = ap(t['l'])
+            elif t.get('k') == 'un' and t.get('op') in ('++', '--'):
+                tgt = ap(t.get('e'))
+            if tgt in watched:
+                e = apply_generic(ev, env, R).copy()
+                e.ts['fresh'] = frozenset(x for x in env.ts.get('fresh', frozenset()) if tgt not in x)
+                return [e]
+            for (sev, d, c) in sites:
+                if ev is sev:
+                    ok = any(c in x and ('D:' + d) in x for x in env.ts.get('fresh', frozenset()))
+                    run.oblige('R-LEN-READ', ok, '%s:outcap' % name)
+                    if not ok:
+                        run.violation('R-LEN-READ', name, ev['loc'], 'capacity-check-stale:%s' % t.get('fn'),
+                                      '%s() writes through `%s` without knowing its capacity, and the remaining capacity `%s` has not been compared with anything since `%s` / `%s` were '
+                                      'last changed: a check made before the adjustment does not cover what is written now' %
+                                      (t.get('fn'), short(t['a'][[i for i, a in enumerate(t['a']) if ap(a) == d][0]]), [k for k, v in vars_.items() if v == c][0],
+                                       [k for k, v in vars_.items() if v == d][0], [k for k, v in vars_.items() if v == c][0]), ctx.path())
+            return None
+
+        def on_branch(b, s, env, ctx):
+            c = (b.get('term') or {}).get('cond')
+            if c is None:
+                return env
+            caps = set(cc for _e, _d, cc in sites)
+            hit = [ap(x) for x in walk(c) if isinstance(x, dict) and ap(x) in caps]
+            if not hit:
+                return env
+            e = env.copy()
+            fr = set(env.ts.get('fresh', frozenset()))
+            for cc in hit:
+                # the check is about the capacity AND the current pointer position (both unchanged since)
+                for (_e, d, c2) in sites:
+                    if c2 == cc:
+                        fr.add((cc, 'D:' + d))
+            e.ts['fresh'] = frozenset(fr)
+            return e
+        for sev, d, c in sites:
+            n += 1
+            run.instance('R-LEN-READ', '%s: %s(.., %s) with capacity %s' % (name, sev['e']['fn'], [k for k, v in vars_.items() if v == d][0], [k for k, v in vars_.items() if v == c][0]))
+        # kill must also apply when the destination pointer moves: encode by making the tuple contain 'D:<ptr>' and filtering on the raw ap
+        solve(f, Env({'fresh': frozenset()}), lambda ev, env, ctx: _outcap_event(ev, env, ctx, on_event, watched), None, keys, R, key_fn=lambda e: e.ts.get('fresh'), on_branch=on_branch)
+    run.require(n >= 1 or run.fixture_mode, 'R-LEN-READ(output): no write through an unsized callee parameter with a travelling capacity found in %s' % (units,))
+
+
+def _outcap_event(ev, env, ctx, inner, watched):
+    from core.prog import ap
+    t = ev['e']
+    tgt = None
+    if t.get('k') == 'asg':
+        tgt = ap(t['l'])
+    elif t.get('k') == 'un' and t.get('op') in ('++', '--'):
+        tgt = ap(t.get('e'))
+    if tgt in watched:
+        from core.psts import apply_generic
+        e = apply_generic(ev, env, None).copy()
+        e.ts['fresh'] = frozenset(x for x in env.ts.get('fresh', frozenset()) if tgt not in x and ('D:' + tgt) not in x)
+        return [e]
+    return inner(ev, env, ctx)
